@@ -165,7 +165,7 @@ def run(ctx):
     reuse(ctx, c08.run, ("C08.ratio", "C08.var"), "C18def", "identities shared with C08: the recorded incremental ratio (and its variance) must be the log of the mean incremental weight "
           "over all N particles of the stored population, or it does not equal its definition recomputed from the stored populations")
     from . import c10
-    reuse(ctx, lambda c: c10.own_rule(c), ("C10.own",), "C18own", "ownership rule shared with C10: the history stores the population objects themselves, so an in-place write into "
+    reuse(ctx, lambda c: c10.own_rule(c, fields=c10.DENSITY_FIELDS), ("C10.own",), "C18own", "ownership rule shared with C10: the history stores the population objects themselves, so an in-place write into "
           "a caller's array rewrites a population that was already recorded")
     reuse(ctx, c11.run, ("C11.cut",), "C18cut", "cut-point rule shared with C11: a checkpoint taken before the iteration's last history append restores a history that lacks that entry")
     reuse(ctx, c11.run, ("C11.snapshot",), "C18ckpt", "snapshot rule shared with C11: a resumed run's history starts from what the checkpoint recorded")
